@@ -491,7 +491,7 @@ pub fn run(ctx: &Ctx) -> Report {
   let mut rep = Report::default();
   let mut orc = Oracle::spawn();
   let mut rng = Rng::new(ctx.seed);
-  rep.rule = "(a) validation: structured ASCII and JSON documents for the 9 (quantity,width) instances - <= 7 cells / ranges over <= 3 depths listed in increasing, decreasing or random order, half of them with one mutation (index = n_cells, n_cells+1, range ending one past the domain, inverted range, depth max+1..max+3 / 64 / 99 / 200 / 255, end or index = type maximum, duplicated / parent / child cell, trailing depth mark beyond the maximum) - accept/reject decision and decoded MOC compared with extracted text_accept/text_decode, accepted MOCs through extracted valid_mocb; (b) totality: character-level mutations of 9 valid text documents through 13 decoders / store loaders in-process (panic + allocation monitor), and FITS documents (range S/T/F u16/u32/u64, NUNIQ, ST v2, multi-order map and sky map samples cut to 4 blocks) with single-field mutations (26 boundary values on every card, blanked / misspelt keywords, truncation at any offset, randomised or extreme data values) decoded in a child process (exit status, panic, abort, largest allocation request). non-trivial = >= 2 items (a) / any mutated document (b); distinct = distinct case line".to_string();
+  rep.rule = "(a) validation: structured ASCII and JSON documents for the 9 (quantity,width) instances - <= 7 cells / ranges over <= 3 depths listed in increasing, decreasing or random order, half of them with one mutation (index = n_cells, n_cells+1, range ending one past the domain, inverted range, depth max+1..max+3 / 64 / 99 / 200 / 255, end or index = type maximum, duplicated / parent / child cell, trailing depth mark beyond the maximum) - accept/reject decision and decoded MOC compared with extracted text_accept/text_decode, accepted MOCs through extracted valid_mocb; (b) totality: character-level mutations of 9 valid text documents through 13 decoders / store loaders in-process (panic + allocation monitor), and FITS documents (range S/T/F u16/u32/u64, NUNIQ, ST v2, multi-order map and sky map samples cut to 4 blocks) with a structural sweep (every size / type keyword of the extension header set to values derived from its current value: v-1, v+1, v/2, v/4, 2v, v-4, 4, 8; every TFORM set to 16 neighbouring forms) and random single-field mutations (26 boundary values on every card, blanked / misspelt keywords, truncation at any offset, randomised or extreme data values) decoded in a child process (exit status, panic, abort, largest allocation request). non-trivial = >= 2 items (a) / any mutated document (b); distinct = distinct case line".to_string();
   let n_val = ctx.n(6_000, 200_000);
   for _ in 0..n_val {
     validation_case(&mut rep, &mut orc, &mut rng);
@@ -505,12 +505,67 @@ pub fn run(ctx: &Ctx) -> Report {
   let n_fits = ctx.n(700, 30_000);
   let mut k = 0u64;
   let mut docs = base_fits_docs(&mut rng);
-  for i in 0..n_fits {
-    if i % 200 == 199 {
+  // structural sweep: every size / type keyword of every base document set to values DERIVED from
+  // its current value (v-1, v+1, v/2, v/4, 2v, v-4, 4, 8) and every TFORM to neighbouring forms:
+  // the guards relating NAXIS1, TFORMn, NAXIS2, NSIDE and the depth keywords are exercised at their bounds
+  let mut cases: Vec<(String, String, Vec<u8>)> = Vec::new();
+  {
+    let structural = ["NAXIS1", "NAXIS2", "TFIELDS", "NSIDE", "MOCORDER", "MOCORD_T", "MOCORD_S", "MOCORD_1", "MOCORD_2", "MOCORD_F", "ORDER", "PCOUNT", "GCOUNT", "BITPIX", "FIRSTPIX", "LASTPIX", "NAXIS"];
+    let tforms = ["'1E'", "'1D'", "'1K'", "'1J'", "'1I'", "'1B'", "'0E'", "'2E'", "'1024D'", "'1024E'", "'2048E'", "'512E'", "'1025E'", "'E'", "'D'", "'K'"];
+    for (name, base) in &docs {
+      let cards = find_cards(base);
+      let mut in_ext = false;
+      for (off, key) in &cards {
+        let kt = key.trim().to_string();
+        if kt == "XTENSION" {
+          in_ext = true;
+        }
+        if !in_ext {
+          continue;
+        }
+        if structural.contains(&kt.as_str()) {
+          let cur = String::from_utf8_lossy(&base[off + 10..off + 30]).trim().to_string();
+          if let Ok(v) = cur.parse::<i64>() {
+            let mut dv = vec![v - 1, v + 1, v / 2, v / 4, v * 2, v - 4, 4, 8];
+            dv.sort();
+            dv.dedup();
+            for x in dv {
+              if x != v {
+                let mut d = base.clone();
+                set_card_value(&mut d, *off, &x.to_string());
+                cases.push((name.clone(), format!("card {} {} <- {}", kt, v, x), d));
+              }
+            }
+          }
+        } else if kt.starts_with("TFORM") {
+          for tf in tforms {
+            let mut d = base.clone();
+            let field = format!("{:<20}", tf);
+            d[off + 10..off + 30].copy_from_slice(&field.as_bytes()[..20]);
+            cases.push((name.clone(), format!("card {} <- {}", kt, tf), d));
+          }
+        }
+      }
+    }
+    if !ctx.thorough {
+      // quick: every other derived case (all of them in the thorough tier)
+      let keep: Vec<_> = cases.into_iter().enumerate().filter(|(i, c)| i % 2 == 0 || c.0 == "skymap" || c.0 == "mom").map(|(_, c)| c).collect();
+      cases = keep;
+    }
+    rep.notes.push(format!("structural sweep cases: {}", cases.len()));
+  }
+  let n_sweep = cases.len() as u64;
+  for i in 0..(n_sweep + n_fits) {
+    if i >= n_sweep && (i - n_sweep) % 200 == 199 {
       docs = base_fits_docs(&mut rng);
     }
-    let (name, base) = rng.pick(&docs).clone();
-    let (what, doc) = if i % 25 == 0 { ("unmodified".to_string(), base.clone()) } else { mutate_fits(&mut rng, &base) };
+    let (name, what, doc) = if i < n_sweep {
+      cases[i as usize].clone()
+    } else {
+      let (name, base) = rng.pick(&docs).clone();
+      let (what, doc) = if (i - n_sweep) % 25 == 0 { ("unmodified".to_string(), base.clone()) } else { mutate_fits(&mut rng, &base) };
+      (name, what, doc)
+    };
     let kind = if name == "mom" || name == "skymap" { name.as_str() } else { "fits" };
     k += 1;
     let (outcome, maxalloc) = run_child(kind, &doc, &scratch, k);
